@@ -47,10 +47,17 @@ MARKUP_PIECES += LINE_BREAKERS
 MARKUP_ATTACKS = [p for p in MARKUP_PIECES if len(p) > 6] + ['old%s%s.. raw:: html%s%s <script>alert(1)</script>%s%snew' % ((b,) * 6) for b in LINE_BREAKERS] + [
                   'x%s.. image:: javascript:alert(1)%sy' % (b, b) for b in LINE_BREAKERS[:3]] + ['U{javascript:alert(1)}', 'L{<b>}', 'C{x}E{lb}', ' javascript:alert(1) ', ' http://evil.example/ ', '*em* **st** `ref`_ |s| [1]_',
                                                         'x ``y', '`', '\\`` `a <b>`_ ``']
+# file names that are reST markup (a module's name is spelled out in generated text)
+STEM_MARKUP = ['m` `x <javascript:alert(1)>`_ **bold** `n', 'a` **b** `c', 'x`_ `y', '``lit`` *em*', 'a`\\ <b>', '|sub|', 'x_', '`t`_']
 DOC_SLOTS = ['doc_mod', 'doc_cls', 'doc_meth', 'doc_attr', 'docfield_param', 'docfield_ivar']
 CODE_SLOTS = ['const', 'const_nested', 'default', 'default_lambda', 'default_ifexp', 'default_cmp', 'default_comp', 'const_lambda', 'ann_str', 'ann_literal', 'ann_return', 'deco_arg', 'deprecated_repl', 'deprecated_ver', 'base_sub', 'alias', 'typevar']
 OPT_SLOTS = ['project_name', 'project_url', 'project_version', 'viewsource_base']
 STEM_SLOT = 'stem'
+# (the module named by the payload also holds objects that are referred to by name from generated text: a deprecation whose replacement
+# is written as a name is spelled out with the module's name in it)
+STEM_SRC = ('"""stem module"""\nfrom twisted.python.deprecate import deprecated\nfrom incremental import Version\nclass InStem:\n    def f(self): pass\n'
+            '    @deprecated(Version("pkg", 1, 2, 3), replacement=f)\n    def old(self):\n        pass\ndef newfunc(): pass\n'
+            '@deprecated(Version("pkg", 1, 2, 3), replacement=newfunc)\ndef oldfunc():\n    pass\n@deprecated(Version("pkg", 1, 2, 3), replacement=InStem.f)\ndef older():\n    pass\n')
 # docstring text that markup itself places in an attribute value: the alternative text of a reST image, the target of a reST or
 # epytext hyperlink.  Quotes in it must not end the attribute.
 ATTR_SLOTS = ['rst_image_alt', 'rst_link_uri', 'epy_link_uri']
@@ -125,7 +132,7 @@ def build_project(values: Dict[str, str], fmt: str) -> Tuple[Dict[str, str], Lis
     epy_doc = 'Module with epytext markup, see U{the link text<http://example.org/%s>} for more.\n\nAlso L{%s <pkg.mod.C>} and U{%s <http://example.org/y>}.\n' % (
         v['epy_link_uri'], v['epy_xref_label'], v['epy_url_label'])
     files = {'pkg/attrs_rst.py': '__docformat__ = "restructuredtext"\n__doc__ = %s\n' % r(rst_doc), 'pkg/attrs_epy.py': '__docformat__ = "epytext"\n__doc__ = %s\n' % r(epy_doc)}
-    files.update({'pkg/__init__.py': '"""pkg"""\n', 'pkg/mod.py': src, 'pkg/%s.py' % stem: '"""stem module"""\nclass InStem:\n    def f(self): pass\n'})
+    files.update({'pkg/__init__.py': '"""pkg"""\n', 'pkg/mod.py': src, 'pkg/%s.py' % stem: STEM_SRC})
     args = ['--docformat=' + fmt, '--project-name=' + v['project_name'], '--project-url=' + v['project_url'], '--project-version=' + v['project_version'],
             '--html-viewsource-base=' + v['viewsource_base'], '--project-base-dir=.',
             # escaped characters change the displayed length; no wrapping keeps the layout independent of it
@@ -282,7 +289,7 @@ def st_case():
             elif s in GENERIC_SLOTS:
                 canaries[s] = draw(st.lists(st.sampled_from([p for p in HTML_PIECES + MARKUP_PIECES if len(p) < 12 and not any(ch.isspace() or ch in LINE_BREAKERS for ch in p)]), min_size=1, max_size=3).map(''.join))
             elif s == STEM_SLOT:
-                canaries[s] = draw(payload(['<', '>', '&', '"', "'", '&lt;', '<b>', ' ', '%', '#', '+', ';', '=', 'a']))
+                canaries[s] = draw(payload(['<', '>', '&', '"', "'", '&lt;', '<b>', ' ', '%', '#', '+', ';', '=', 'a', '`', '``', '*', '**', '_', '`_', '|', '<javascript:alert(1)>', '\\']))
             elif s in OPT_SLOTS:
                 canaries[s] = draw(payload([p for p in HTML_PIECES + ['`', '*', '{', '}'] if p not in ('\x01', '\x1b', '\x0c')]))
             elif s == 'deprecated_repl':
@@ -326,7 +333,7 @@ def work(item: Dict[str, Any]) -> Acc:
         idx = 0
         fmts = ['epytext', 'restructuredtext', 'google', 'numpy', 'plaintext']
         for slot in ALL_SLOTS:
-            attacks = HTML_ATTACKS if slot in DOC_SLOTS or slot == STEM_SLOT or slot in LABEL_SLOTS else (ATTR_ATTACKS if slot in ATTR_SLOTS else HTML_ATTACKS + MARKUP_ATTACKS)
+            attacks = HTML_ATTACKS + (STEM_MARKUP if slot == STEM_SLOT else []) if slot in DOC_SLOTS or slot == STEM_SLOT or slot in LABEL_SLOTS else (ATTR_ATTACKS if slot in ATTR_SLOTS else HTML_ATTACKS + MARKUP_ATTACKS)
             for ai, payload in enumerate(attacks):
                 if slot in GENERIC_SLOTS and (len(payload) > 36 or any(ch.isspace() or ch in LINE_BREAKERS for ch in payload)):
                     continue
